@@ -283,6 +283,12 @@ def run(prop, tier):
                 records.append(dict(id=rid, kind="same", a=dg(progset_content(pg)), b=dg(progset_content(pg2))))
                 index[rid] = dict(label=dict(model=name, history=[[op, arg]]), what="program set vs rebuilt from its own export (visible content)")
                 rid += 1
+                if op == "remove_program":
+                    # explicit outcomes of combinations that do not involve the removed program are the values they were
+                    keep = lambda pg_: {k_: [it for it in v_["interactions"] if arg not in it[0].split("+")] for k_, v_ in progset_content(pg_)["covouts"].items()}
+                    records.append(dict(id=rid, kind="same", a=dg(keep(pg0)), b=dg(keep(pg))))
+                    index[rid] = dict(label=dict(model=name, history=[[op, arg]]), what="explicit outcomes of the surviving combinations after the removal", before=str(keep(pg0))[:200], after=str(keep(pg))[:200])
+                    rid += 1
             except Exception as ex:
                 V.violation("C16 %s raised %s" % (op, type(ex).__name__), dict(model=name, history=[[op, arg]], error=str(ex)[:300]))
     # ================= round trips of every kind of file, content and behaviour
